@@ -826,7 +826,8 @@ impl<const N: usize> ScenN<N> {
                 if p.extension().map_or(false, |x| x == "blob") {
                     let b = std::fs::read(&p).unwrap_or_default();
                     if let Some((s0, h, m, d)) = Self::parse_blob(&b).last() {
-                        if s0 + h <= b.len() && s0 + h + m + d > b.len() {
+                        // (known finding E8 covers the scan without data validation, and data-less records)
+                        if s0 + h <= b.len() && s0 + h + m + d > b.len() && (!self.cfg.validate || *d == 0) {
                             torn = true;
                         }
                     }
@@ -930,7 +931,23 @@ impl<const N: usize> ScenN<N> {
             }
         }
         let total = cands.len();
-        let chosen: Vec<usize> = if total <= budget { (0..total).collect() } else { (0..budget).map(|i| (i * total) / budget).collect() };
+        let mut chosen: Vec<usize> = if total <= budget { (0..total).collect() } else { (0..budget).map(|i| (i * total) / budget).collect() };
+        // the realistic torn tail is always explored: the last record of the active blob cut exactly between its two
+        // writes (after header + meta) and right after its header
+        for b in states.iter().filter(|b| b.active) {
+            let bytes = std::fs::read(orig.join(format!("t.{}.blob", b.id))).unwrap_or_default();
+            if let Some((start, hsz, ms, ds)) = Self::parse_blob_full(&bytes).last().copied() {
+                if ds > 0 {
+                    for c in [(start + hsz + ms) as u64, (start + hsz) as u64] {
+                        if let Some(ix) = cands.iter().position(|x| x.0 == b.id && x.1 == c && x.2 == "keep") {
+                            if !chosen.contains(&ix) {
+                                chosen.push(ix);
+                            }
+                        }
+                    }
+                }
+            }
+        }
         let mut n = 0usize;
         let mut e8 = 0usize;
         let mut bad: Option<String> = None;
@@ -977,7 +994,12 @@ impl<const N: usize> ScenN<N> {
             let mut torn_accepted = false;
             match served {
                 Some(c) => {
-                    if c == n_full + 1 && torn_hdr_complete {
+                    // known finding E8: the scan that does not validate data accepts a tail record whose header is
+                    // complete; the validating scan does so only for a record without data (nothing to read back)
+                    let torn_has_data = layout.iter().any(|(s0, h, m, d)| ((s0 + h) as u64) <= cut && ((s0 + h + m + d) as u64) > cut && *d > 0);
+                    if c == n_full + 1 && torn_hdr_complete && self.cfg.validate && torn_has_data {
+                        bad = Some(format!("{}: data validation is on, yet the tail record torn inside its meta/data was accepted ({} records served, {} complete)", what, c, n_full));
+                    } else if c == n_full + 1 && torn_hdr_complete {
                         torn_accepted = true;
                     } else if c != n_full {
                         bad = Some(format!("{}: {} records served, {} are complete in the surviving prefix (of {})", what, c, n_full, recs.len()));
@@ -2455,7 +2477,7 @@ fn new_scen(cfg: Cfg, dir: PathBuf) -> Option<Box<dyn Scen>> {
             }
         };
     }
-    mk!(1, 4, 8, 33, 128, 503, 1000)
+    mk!(1, 4, 7, 8, 33, 128, 503, 1000)
 }
 
 pub fn run_lines(lines: &[String], base: &Path, keep: bool, out: &mut dyn FnMut(&str)) {
